@@ -180,7 +180,7 @@ Fixpoint tail_ok (t : ty) (post : toks) : bool :=
   | TImport _ (_ :: _) [] => no_lt post
   | TInfer _ => negb (is KExtends post)
   | TParen _ => negb (is KArrow post)
-  | TUnion _ b | TInter _ b | TKeyof _ b | TCond _ _ _ b | TPred _ b | TFn _ _ b => tail_ok b post
+  | TUnion _ b | TInter _ b | TKeyof _ b | TCond _ _ _ b | TPred _ b | TFn _ _ _ b => tail_ok b post
   | TAsserts _ h b => if h then tail_ok b post else no_is post && no_lt post
   | _ => true
   end.
@@ -224,7 +224,7 @@ Qed.
 
 Definition start_tk (k : tk) : bool :=
   match k with
-  | KRBrack | KRBrace | KRParen | KColon | KQuestion | KIn | KComma | KDotDotDot | KTplMid | KTplTail | KLt | KPlus | KMinus => false
+  | KRBrack | KRBrace | KRParen | KColon | KQuestion | KIn | KComma | KDotDotDot | KTplMid | KTplTail | KPlus | KMinus => false
   | _ => true
   end.
 
@@ -252,7 +252,7 @@ Proof.
   all: try (destruct ro; reflexivity).
   all: try (destruct tof; reflexivity).
   all: try (unfold bind_tk; destruct (x <? 0); reflexivity).
-  all: try (destruct (kind =? 2); [reflexivity|destruct (kind =? 1); reflexivity]).
+  all: try (destruct (kind =? 2); [reflexivity|destruct (kind =? 1); [reflexivity|destruct tps; reflexivity]]).
 Qed.
 
 Lemma not_is_of_start t k post : wfb t = true -> start_tk k = false -> is k (R t post) = false.
